@@ -14,7 +14,7 @@ D = {
          "Trusted: reference model. One recorded finding (product exponent outside the int32 range) is matched by input class AND exact defective behaviour; anything else is a violation.", MC),
  "C04": ("E1", "Every operation x every operand class combination {-Inf,-finite,-0,+0,+finite,+Inf}^k x all modes x receiver precisions {0,3,40} x finite magnitudes from one digit to 260 words; a panic classifier wraps every call: exactly the invalid operations must panic with ErrNaN and leave a canonical receiver, nothing else may panic.",
          "Trusted: the IEEE special-value table encoded in mc/ref.go.", MC),
- "C05": ("E1", "All x = c*10^e with c up to 4 digits (5 thorough) at 6 exponents (both parities), perfect squares r^2, r^2±1 and exact ties (10r+5)^2 for r in D(3), R(9), W(2,S7), long run-length inputs, specials and range ends x 14 receiver precisions x 6 modes with x.mode != receiver mode and dirty receivers; compared with integer-sqrt-with-remainder; receiver Prec()/Mode() must be unchanged.",
+ "C05": ("E1", "All x = c*10^e with c up to 4 digits (5 thorough) at 6 exponents (both parities), perfect squares r^2, r^2±1 and exact ties (10r+5)^2 for r in D(3), R(9), W(2,S7) and 15 roots with squares around 2^52..2^64, long run-length inputs, specials and range ends x 14 receiver precisions x 6 modes with x.mode != receiver mode and dirty receivers; compared with integer-sqrt-with-remainder; receiver Prec()/Mode() must be unchanged.",
          "Trusted: big.Int.Sqrt based model (self-checked by squaring). Acc() after Sqrt is not judged (not stated).", MC),
  "C06": ("E1+hook", "dec.mul/sqr/div driven through the verif hook under an adversarial scratch pool: every length pair in a 14x14 grid (48x48 thorough) plus large unbalanced pairs x 10 Karatsuba thresholds incl. odd ones x squaring-threshold assignments; every u in W(5,S7) by every v in W(3,S7) (5.7M divisions; S9/S12 thorough), constructive u=q*v+r, 99..200-word (400 thorough) divisors through the real recursive division with r in {0,1,v-1}; plus public Mul/Quo on large operands. Oracle: schoolbook base-1e19 reference (self-checked against math/big): product equality, q*v+r==u, r<v, words<1e19, operands unchanged.",
          "Trusted: 60-line reference arithmetic, math/bits. divRecursiveThreshold is a constant and only exercised at its shipped value. Pool replaced through a build-time overlay (scripts/overlay.py), never committed to /repo.", MC),
@@ -24,13 +24,13 @@ D = {
          "Trusted: mc/obs.go Canonical predicate. Depth 3 (quick) / 4 (thorough) with the stated operation menus.", "explicit-state BFS over operation histories on the real objects (state hashing on canonical observation incl. len/cap)"),
  "C09": ("E2+E1", "Same history search as C08 with the attribute model as judge (precision changes only from 0 and only to the documented value; mode never changes except for the documented copiers; non-receiver operands identical before/after) plus a per-operation attribute grid; operands additionally placed in write-protected memory (mprotect) so that even write-then-restore faults.",
          "Trusted: attribute table in mc/hist.go, mprotect-based write monitor (linux/amd64).", "explicit-state BFS over operation histories + bounded-exhaustive per-operation grid; write-protection monitor"),
- "C10": ("E1+E2", "Every operation x every aliasing partition of its variables x every receiver pre-state (fresh, held longer/shorter values, infinities, -0 with stale buffer, exact-capacity buffer, inexact negative, 40-word dirty buffer) x operands from digit, word-edge and 100-word layers; differential oracle: the same implementation run with a fresh receiver and unaliased deep-copied operands must give the identical observation; the exact model is applied as well.",
+ "C10": ("E1+E2", "Every operation x every aliasing partition of its variables x every receiver pre-state (fresh, held longer/shorter values, infinities, -0 with stale buffer, exact-capacity buffer, inexact negative, 40-word dirty buffer) x operands from digit, word-edge and 100-word layers; differential oracle: the same implementation run with a fresh receiver and unaliased deep-copied operands must give the identical observation; the exact model is applied as well; operands that are windows of one caller-owned word buffer (SetBitsExp shares the slice: identical, overlapping, adjacent windows) give the same outcome as independent copies.",
          "Trusted: differential oracle (same code, unaliased) + reference model.", MC),
  "C11": ("E1", "For every x in D(3) ∪ R(45) ∪ W(3,S7) (low/interior zero words) x exponents ±25 and range ends, ±0, ±Inf: Text/Append with e,E,f,g,G,p (-1) and b, MarshalText, JSON -> Parse base 10/0, SetString, UnmarshalText, JSON at receiver precisions >= MinPrec; parsed value must equal x exactly with Acc Exact and the output must contain exactly MinPrec significant digits.",
          "Trusted: digit extraction in the harness. 'f' only for moderate exponents.", MC),
  "C12": ("E1", "All strings of length <= 6 (7 thorough) over a 14-symbol alphabet x 5 bases against a reference grammar and, differentially, math/big Float.Parse (accept set and base); structured decimal literals split around the radix point everywhere with separators and huge exponents x precisions x modes against the exact literal evaluator; base 2/8/16 and p-exponent literals exact-or-within-1ulp; SetString/ParseDecimal/UnmarshalText/Sscan agree with Parse.",
          "Trusted: reference grammar/evaluator in mc/parse.go, math/big as differential oracle for the accept set.", MC + "; differential against math/big"),
- "C13": ("E1", "Values x 6 modes x formats e,E,f,g,G,p,b x precisions -1..40 against a reference formatter (round once at the requested position under x's mode, then strconv layout), fmt verbs x all 16 flag subsets x widths x precisions against fmt's own float64 formatting on float64-exact values; the reference formatter is pinned to strconv.FormatFloat in the same run.",
+ "C13": ("E1", "Values (each also as the same value carrying accuracy Below/Above from an earlier operation) x 6 modes x formats e,E,f,g,G,p,b x precisions -1..40 against a reference formatter (round once at the requested position under x's mode, then strconv layout), fmt verbs x all 16 flag subsets x widths x precisions against fmt's own float64 formatting on float64-exact values; the reference formatter is pinned to strconv.FormatFloat in the same run.",
          "Trusted: reference formatter pinned to strconv/fmt of the toolchain.", MC),
  "C14": ("E1", "Int/Int64/Uint64/Rat/IsInt/MinPrec on values around 2^63, 2^64, 10^19 with fractional parts, D(3) x exponents, W(3,S7) x exponents, specials; SetInt/SetInt64/SetUint64/SetRat/NewDecimal over edge integers, 2^k±d and 10^k±d up to 4000 bits, rationals, exponent extremes x precisions x modes; oracle big.Int/big.Rat.",
          "Trusted: math/big.", MC),
@@ -40,9 +40,9 @@ D = {
          "Trusted: exact comparison in mc/ref.go.", MC),
  "C17": ("E1", "Round trips of attribute-complete Decimals into zero-value and attributed receivers; hostile input: every byte string of length <= 3, and for 64 valid encodings every truncation, every single-byte substitution by all 256 values, header pair substitutions, extensions; decoding must never panic and must return an error or leave a canonical Decimal.",
          "Trusted: canonical predicate, model decode.", "exhaustive fault enumeration over byte strings and corruptions of valid encodings"),
- "C18": ("E3", "Cooperative-scheduler exploration of 2-3 goroutines sharing operands: all interleavings at pool-operation granularity, preemption-bounded at kernel-call granularity, x every legal pool answer, under the adversarial pool with ownership tracking; every read-only operation on operands placed in PROT_READ memory (any store faults); free-running -race pass as supporting evidence.",
+ "C18": ("E3", "Cooperative-scheduler exploration of 2-3 goroutines sharing operands (47 scenarios incl. input conversions Parse/SetFloat64/SetRat next to readers): all interleavings at pool-operation granularity, preemption-bounded at kernel-call granularity, x every legal pool answer, under the adversarial pool with ownership tracking; every read-only operation on operands placed in PROT_READ memory (any store faults); free-running -race pass as supporting evidence.",
          "Trusted: scheduler owns every scheduling point through a build-time overlay; sequential consistency at kernel granularity.", "stateless model checking: DFS over schedules with iterative preemption bounding on the real code"),
- "C19": ("E2", "Breadth-first search over Context call histories (arithmetic, Sqrt, Neg/Abs/Set, Err, SetPrec/SetMode, New*, nil-operand calls) mixing valid and NaN-producing argument classes; model = latch automaton {armed, latched(e)} x reference rounding.",
+ "C19": ("E2", "Breadth-first search over Context call histories (arithmetic, Sqrt, Neg/Abs/Set, Err, SetPrec/SetMode, New*, nil-operand calls) mixing valid and NaN-producing argument classes, plus per-operation layers (operand classes, factories, a far sticky digit in long operands, integers next to perfect squares around 2^52..2^64); model = latch automaton {armed, latched(e)} x reference rounding.",
          "Trusted: latch model in mc/ctxhist.go, reference rounding.", "explicit-state BFS over operation histories on the real Context"),
  "C20": ("E1", "SetBitsExp over every word vector of length 0..4 over S7 (all-zero, leading-zero, low-zero, unnormalised) x exponents incl. int64 extremes x receiver precisions incl. 0 x modes x pre-states; BitsExp after each; MantExp/SetMantExp inverse laws over values x offsets near the int32 limits.",
          "Trusted: reference model.", MC),
